@@ -84,14 +84,14 @@ Definition sv8_parse_sh (st : sv8_state) (rest : list Z) (data_size : Z) : resul
         (* read(remaining_size): a negative size reads everything, and the length test fails *)
         if remaining_size <? 0 then Raise EMutagen
         else
-          let data := ztake remaining_size rest in
+          let data := ztake_c remaining_size rest in
           if negb (zlen data =? remaining_size) || (zlen data <? 2) then Raise EMutagen
           else
             match idx (byte_at 0 data / 32) gen_musepack_rates with   (* data[0] >> 5 *)
             | None => Raise EMutagen
             | Some rate =>
               Ok (mkSv8 true (s8_rg st) version (samples - samples_skip) rate (byte_at 1 data / 16 + 1)
-                        (s8_tg st) (s8_tp st) (s8_ag st) (s8_ap st), zdrop remaining_size rest)
+                        (s8_tg st) (s8_tp st) (s8_ag st) (s8_ap st), zdrop_c remaining_size rest)
             end
       end
     end
@@ -101,12 +101,12 @@ Definition sv8_parse_sh (st : sv8_state) (rest : list Z) (data_size : Z) : resul
 Definition sv8_parse_rg (st : sv8_state) (rest : list Z) (data_size : Z) : result (sv8_state * list Z) :=
   if data_size <? 9 then Raise EMutagen
   else
-    let data := ztake data_size rest in
+    let data := ztake_c data_size rest in
     if negb (zlen data =? data_size) then Raise EMutagen
     else Ok (mkSv8 (s8_sh st) true (s8_version st) (s8_samples st) (s8_rate st) (s8_channels st)
                    (to_signed 65536 (be_at 1 2 data)) (to_signed 65536 (be_at 3 2 data))
                    (to_signed 65536 (be_at 5 2 data)) (to_signed 65536 (be_at 7 2 data)),
-             zdrop data_size rest).
+             zdrop_c data_size rest).
 
 (* the packet loop of __parse_sv8; `rest` starts right after a frame key that has been read and checked *)
 Fixpoint sv8_loop (fuel : nat) (st : sv8_state) (frame_type rest : list Z) : result sv8_state :=
@@ -131,7 +131,7 @@ Fixpoint sv8_loop (fuel : nat) (st : sv8_state) (frame_type rest : list Z) : res
         else if list_eqb frame_type key_RG then
           (if s8_rg st then Raise EMutagen else next (sv8_parse_rg st rest data_size))
         else if data_size <? 0 then Raise ENotImpl      (* backward seek: not modelled (C04 finding) *)
-        else next (Ok (st, zdrop data_size rest))
+        else next (Ok (st, zdrop_c data_size rest))
       end
   end.
 
@@ -160,14 +160,14 @@ Definition decode_mpc (f : list Z) : result (list Z) :=
   if negb (zlen header =? 4) then Raise EMutagen
   else
     let with_header (header : list Z) (pos : Z) : result (list Z) :=
-      if starts_with ascii_MPCK header then rmap (cons 8) (decode_mpc_sv8 (zdrop (pos + 4) f))
-      else rmap (cons 7) (decode_mpc_sv467 (zdrop pos f)) in
+      if starts_with ascii_MPCK header then rmap (cons 8) (decode_mpc_sv8 (zdrop_c (pos + 4) f))
+      else rmap (cons 7) (decode_mpc_sv467 (zdrop_c pos f)) in
     if list_eqb (firstn 3 header) ascii_ID3 then
       let h6 := sub_at 4 6 f in
       if negb (zlen h6 =? 6) then Raise EMutagen
       else
         let size := 10 + bpi4 (sub_at 2 4 h6) in
-        let header := zslice size (size + 4) f in
+        let header := zslice_c size (size + 4) f in
         if negb (zlen header =? 4) then Raise EMutagen else with_header header size
     else with_header header 0.
 (* EXTRACT: InfoMpc.build_mpc8 InfoMpc.decode_mpc InfoMpc.sv8_varint *)
